@@ -721,10 +721,12 @@ Section WithAssetID.
     | Panic p => Panic p
     end.
 
-  (* SupLinks.readFrom *)
+  (* SupLinks.readFrom.  A count above the number of unread bytes is refused before the
+     slice is made (every sup link takes more than one byte).  (The pinned tree made the
+     slice for any 31-bit count first; repaired, see C05.) *)
   Definition read_suplinks (nv : nat) : parser (list sup_link) := fun buf =>
     match read_varint31 buf with
-    | Ok (n, r) => read_list (read_suplink nv) n r
+    | Ok (n, r) => if len r <? n then Err EEOF else read_list (read_suplink nv) n r
     | Err e => Err e
     | Panic p => Panic p
     end.
